@@ -10,6 +10,7 @@ node it indexes the real parent, walks the real ancestry and re-queries
 str(result.path) in both notations.
 """
 import random
+import re as _re
 
 import evalcommon as ec
 from evalcommon import init_worker, requests, describe, undescribe, key  # noqa: F401
@@ -131,22 +132,31 @@ def check_result(ld, nc, path):
     return None
 
 
-def odd_ref(r):
-    """a key / member the reported path cannot name: not a string, empty, numeric-looking, with a leading
-    separator or anchor mark, blank at either end, or containing a wildcard"""
+_TAKEN_FOR_ESCAPED = _re.compile(r"""\\[\\./()\[\]^$% '"]""")
+
+
+def odd_ref(r, first):
+    """a key / member that escape_path_section cannot protect, so that the reported path does not lead back
+    (finding F26) - exactly the classes that fail on the unchanged library: not a string (other than int); the
+    empty string; a leading anchor mark '&'; a '*' anywhere (re-read as a wildcard); a back-slash in front of a
+    character escape_path_section escapes (ensure_escaped takes the pair for an escape it already made); and, for
+    the FIRST segment of the path only, a leading '/' (the text then reads as forward-slash notation); a
+    white-space character other than the blank ' ' (tab, line break: only ' ' is escaped, the parser drops the rest).
+    Keys that merely contain or start / end with escapable characters - blanks at either end included - are
+    escaped correctly today and are NOT in this class."""
     if not isinstance(r, str):
         return not isinstance(r, int) or isinstance(r, bool)
-    return (r == "" or r.lstrip("+-").replace("_", "").isdigit() or r[0] in "/&" or r != r.strip()
-            or "*" in r or r[0] in "([" or "\\" in r)
+    return (r == "" or r[0] == "&" or "*" in r or _TAKEN_FOR_ESCAPED.search(r) is not None
+            or (first and r[0] == "/") or any(c.isspace() and c != " " for c in r))
 
 
 def odd_along(nc):
-    for (a, r) in nc.ancestry:
+    for j, (a, r) in enumerate(nc.ancestry):
         if isinstance(a, dict):
-            if odd_ref(r) or (isinstance(r, int) and not isinstance(r, bool) and str(r) in a):
+            if odd_ref(r, j == 0) or (isinstance(r, int) and not isinstance(r, bool) and str(r) in a):
                 return True
         elif ec.docenc.is_set(a):
-            if odd_ref(r) or not isinstance(r, str):     # a set member is only ever compared with the key TEXT
+            if odd_ref(r, j == 0) or not isinstance(r, str):   # a set member is only ever compared with the key TEXT
                 return True
     return False
 
@@ -168,9 +178,10 @@ def observe(case):
         for nc in res:
             checked += 1
             r = check_result(ld, nc, p)
-            if r is not None:
+            if r is not None and len(fails) < 60:
+                # every failing result counts (no stopping at the first one of a path: a result that a listed
+                # finding explains must not hide a later one that nothing explains)
                 fails.append(r)
-                break
     _FAIL[(doc, tuple(paths))] = (fails, checked)
     return obs
 
@@ -184,13 +195,15 @@ def _fails(case, obs):
 
 def judge(case, obs):
     fails, _ = _fails(case, obs)
+    for msg, kind in fails:
+        if kind is None:
+            return msg            # name a failure no listed finding's condition covers, when there is one
     return fails[0][0] if fails else None
 
 
 def f_escape(case, obs):
     """every failure of the case is a reported path that does not resolve back, and the path to that result goes
-    through a key or set member that is not a string, is empty, looks like a number, starts with a separator
-    '/', an anchor mark '&' or an opening bracket, has blanks at either end, contains '*' or a backslash"""
+    through a key or set member of the classes listed at odd_ref (what escape_path_section cannot protect today)"""
     fails, _ = _fails(case, obs)
     return bool(fails) and all(k is not None for _, k in fails) and any(k == "escape" for _, k in fails)
 
@@ -223,10 +236,86 @@ def corpus_chunks():
            ("[ab, {a: -1}, 1]", ["[-9:1][.=ab]", "[0:2][.=ab]", "[1:3][.=1]"])]
 
 
+# keys of every escapable / syntactically meaningful shape, each in its own small documents (top level, below a
+# key, below a list element, as a set member; always with siblings, so that a path re-read as a wildcard or as
+# another key shows) - single cases, a failing one is a minimal replay
+EDGE_KEYS = ["sp ", " sp", " both ", " ", "  ", "a b", "a  b ", "", "1", "-1", "+1", "1_0", "01", "1.5", "/lead", "tr/",
+             "//", "&d", "a&b", "*", "a*", "*a", "**", "[x", "x[", "(y", "y(", "]", ")", "[0]", "(a)", "back\\slash",
+             "\\", "a\\", "\\a", "a\\.b", "a\\/b", "a\\\\b", "a\\ b", "a\\[", "a.b", "a/b", ".dot", "dot.", "'q",
+             "q'", "'q'", '"q', 'q"', "=", "!", "a=b", "a!b", "~", "<", ">", ",", ":", "^a", "a^", "a$", "$a", "%", "a%b",
+             "true", "null", "{", "}", "#", "@", "0", "x y z", "\t", " .", ". ", "a. b", "[ ]", "é "]
+
+
+def yq(k):
+    """a key text as a YAML double-quoted scalar"""
+    import json
+    return json.dumps(k, ensure_ascii=False)
+
+
+def path_parses(k):
+    """the path text the library reports for key k parses at all.  Keys for which it does not (a back-slash in
+    front of a bracket, parenthesis or quote: the escaper takes the pair for an escape it already made and the
+    demarcation stays open) are kept out of the generated stream: model and implementation agree on them - both
+    report a YAML Path error for the reported path - but the shared comparison does not canonicalise an error
+    family nested inside a result line, so the lines differ in spelling only."""
+    try:
+        from yamlpath import YAMLPath
+        from yamlpath.enums import PathSeparators
+        for sep in (PathSeparators.DOT, PathSeparators.FSLASH):
+            list(YAMLPath(YAMLPath.escape_path_section(k, sep))._parse_path(True))
+        return True
+    except Exception:  # noqa
+        return False
+
+
+def edge_cases():
+    for k in EDGE_KEYS:
+        if not path_parses(k):
+            continue
+        q = yq(k)
+        yield ("{zz: 6, %s: 5, a1: 7}" % q, ["*", "/*", "**"])
+        yield ("{zz: {x: 6}, %s: {x: 5, %s: 4}, a1: {x: 7}}" % (q, q), ["*.x", "**", "/*/*"])
+        yield ("{o: {zz: 6, %s: 5, a1: 7}}" % q, ["o.*", "/o/*", "**"])
+        yield ("[{zz: 6, %s: [5, {%s: 4}], a1: 7}]" % (q, q), ["[0].*", "**", "*.*[0]"])
+        yield ("s: !!set\n  ? zz\n  ? %s\n  ? a1\n" % q, ["s.*", "**"])
+
+
+KEY_ALPHABET = "aab1 ./\\[]()'\"^$%&*=!~<>,:{}#-+_ "
+
+
+def random_key(rng):
+    while True:
+        n = rng.choice([1, 1, 2, 2, 3, 4])
+        k = "".join(rng.choice(KEY_ALPHABET) for _ in range(n))
+        if path_parses(k):
+            return k
+
+
+def random_key_doc(rng, depth=0):
+    r = rng.random()
+    if depth >= 3 or r < 0.3:
+        return rng.choice(["1", "x", "null", "'y z'"])
+    if r < 0.8:
+        ks = []
+        for _ in range(rng.randint(1, 3)):
+            k = random_key(rng)
+            if k not in ks:
+                ks.append(k)
+        return "{" + ", ".join("%s: %s" % (yq(k), random_key_doc(rng, depth + 1)) for k in ks) + "}"
+    return "[" + ", ".join(random_key_doc(rng, depth + 1) for _ in range(rng.randint(1, 2))) + "]"
+
+
 def chunks(tier, seed):
     thorough = tier == "thorough"
+    rng = random.Random(seed * 7 + 2)
 
     def gen():
+        for c in edge_cases():
+            yield c
+        for _ in range(4000 if thorough else 500):
+            d = random_key_doc(rng)
+            if d[0] in "{[":
+                yield (d, ["**", "*", "*.*", "/**"])
         for d in ESC_DOCS:
             yield (d, ESC_PATHS)
         for i, (d, paths) in enumerate(ec.gen_cases(tier, seed, with_collectors=False)):
